@@ -1062,18 +1062,19 @@ def get_charnos(node: ast.AST, source: str, keep_first_indent: bool = False) -> 
     end_charno = _get_charno(source, node_position.end_lineno, node_position.end_col_offset)
 
     code = source[start_charno:end_charno]
-    if code and code[0] == " ":
+    # The blanks at the ends of a string are part of it, e.g. of the pieces of f"Saved to {path}"
+    if code and code[0] == " " and not isinstance(node, ast.Constant):
         whitespace = max(re.findall(r"\A^ *", code), key=len)
         start_charno += len(whitespace)
-    if code and code[-1] == " ":
+    if code and code[-1] == " " and not isinstance(node, ast.Constant):
         whitespace = max(re.findall(r" *\Z$", code), key=len)
         end_charno -= len(whitespace)
-    if (
-        start_charno > 0  # At the start of the source there is nothing in front, -1 is its last character
-        and source[start_charno - 1] == "@"
-        and isinstance(node, (ast.ClassDef, ast.FunctionDef, ast.AsyncFunctionDef))
-    ):
-        start_charno -= 1
+    if start is not node:
+        # The "@" is in front of the first decorator, maybe with blanks, an opening bracket or a
+        # line continuation in between: "@ foo", "@(foo)"
+        at_sign = re.search(r"@[\s\\(]*\Z", source[:start_charno])
+        if at_sign:
+            start_charno = at_sign.start()
     if keep_first_indent:
         whitespace = max(re.findall(r" *\Z$", source[:start_charno]), key=len)
         start_charno -= len(whitespace)
